@@ -668,8 +668,8 @@ package dawn
 // registered under that label's own string - never the target of another label - so two runner
 // entries never share a target (each registration allocates its own runTarget).
 //@ func (*dawn.Project).unknownTarget
-//@   trusted
-//@   ensures result != nil
+//@   ensures always-an-error: result != nil
+//@   modifies heap
 //@ func (*dawn.Project).LoadTarget
 //@   uses (*label.Label).String variant function-of-fields
 //@   requires proj != nil && !holds(proj.m)
